@@ -14,7 +14,7 @@ from vf.data import Scenario, build_root
 PROPERTY = "C15"
 LEVEL = "model_checking"
 ASSUMPTIONS = ["one suspension per resolver; requests share one asyncio loop"]
-BUDGET_S = {"quick": 150, "thorough": 3000}
+BUDGET_S = {"quick": 600, "thorough": 3000}
 CAP = {"quick": 30000, "thorough": 200000}
 MAX_I = {"quick": 0, "thorough": 1}
 
